@@ -286,10 +286,12 @@ def run_case(ctx, ask, rng, kind, op, ts, p, parents, note=""):
         if bad:
             ctx.fail("invalid-offspring", dict(inp, variable=bad[0]), bad[1], f"valid {ts[bad[0]]}", where)
         else:
-            pv = [list(s.variables) for s in parents]
             for c in kids:
-                if c.evaluated and list(c.variables) not in pv:
-                    ctx.fail("changed-offspring-still-marked-evaluated", inp, show_sol(ts, c), "evaluated == False", where)
+                # an offspring still marked evaluated must carry the objective values of a parent with exactly its variables
+                # (equal variables alone are not enough: the values it carries came from the parent it was copied from)
+                if c.evaluated and not any(list(c.variables) == list(q.variables) and list(c.objectives) == list(q.objectives) for q in parents):
+                    ctx.fail("changed-offspring-still-marked-evaluated", dict(inp, offspring_objectives=list(c.objectives), parent_objectives=[list(q.objectives) for q in parents]),
+                             show_sol(ts, c), "evaluated == False", where)
                     break
         impl_out = f"ok {getattr(op, 'arity', 1)} 0 " + " ".join(show_sol(ts, c) for c in kids)
         # symmetry of two-parent crossovers on one-variable problems
@@ -395,7 +397,9 @@ def run_multimethod(ctx, ask, rng, nhist):
                 if rng.random() < 0.2:
                     u = C.Solution(p)          # an untagged member (e.g. from the initial population)
                     lst.append(u)
-            v = vs[mm.next_variator] if 0 <= mm.next_variator < nv else None
+            if type(mm.next_variator) is not int or not (0 <= mm.next_variator < nv):
+                ctx.fail("selected-variator-out-of-range", dict(inp0, after="construction" if step == 0 else f"call {step - 1}"), repr(mm.next_variator), f"0..{nv - 1}", "operators.Multimethod")
+                break
             arity = mm.arity
             parents = make_parents(rng, p, ts, arity, rng.choice([None, None, "identical"]))
             before = snapshot(parents)
